@@ -41,7 +41,7 @@ RULE = ("VTI case = one WriteToVTI instance on one grid writing 1-5 vectors for 
         "value column was decoded and compared")
 EXHAUSTIVE = {"quick": False, "thorough": False}
 ASSUMPTIONS = [
-    "grids: quick 2D<=7x7, 3D<=4^3; thorough 2D<=14x14, 3D<=7^3; only grids with nnodes % nel != 0 (quantifier)",
+    "grids: quick 2D<=8x8, 3D<=4^3; thorough 2D<=16x16, 3D<=8^3; only grids with nnodes % nel != 0 (quantifier)",
     "a vector is admissible iff exactly one reading exists: a 1-D vector of k*nel (k*nnodes) entries that is not a multiple "
     "of the other count; a 2-D block with one axis k*nel (k*nnodes) and the other axis (the number of vectors) not a "
     "multiple of nel or nnodes. The TOTAL size of a block may be a multiple of the other count (hostile corner, F10)",
@@ -64,8 +64,8 @@ ASSUMPTIONS = [
     "signal tags are plain identifiers (XML meta-characters or separators inside tags are outside the quantifier)",
     "the memory layout of a logged array is constant over the iterations of one module instance",
 ]
-FLOORS = {"quick": {"cases_held": 1600, "vti_files_decoded": 3000, "vti_arrays_compared": 35000, "vti_sizemult_blocks": 750,
-                    "vti_padded_arrays": 2400, "log_rows_checked": 1700, "log_values_compared": 6000,
+FLOORS = {"quick": {"cases_held": 2500, "vti_files_decoded": 5500, "vti_arrays_compared": 65000, "vti_sizemult_blocks": 1300,
+                    "vti_padded_arrays": 6000, "log_rows_checked": 1700, "log_values_compared": 6000,
                     "log_length1_values": 400},
           "thorough": {"cases_held": 9000, "vti_files_decoded": 25000, "vti_arrays_compared": 150000,
                        "vti_sizemult_blocks": 3000, "vti_padded_arrays": 10000, "log_rows_checked": 20000,
@@ -98,7 +98,7 @@ def _counts(n):
 
 
 def _grids(tier):
-    b2, b3 = (7, 4) if tier == "quick" else (14, 7)
+    b2, b3 = (8, 4) if tier == "quick" else (16, 8)
     g = [[i, j, 0] for i in range(1, b2 + 1) for j in range(1, b2 + 1)]
     g += [[i, j, k] for i in range(1, b3 + 1) for j in range(1, b3 + 1) for k in range(1, b3 + 1)]
     return [n for n in g if _counts(n)[1] % _counts(n)[0] != 0]
@@ -140,7 +140,7 @@ def _classes(n, rng):
 
 
 def _plan_vti(tier, seed):
-    rounds = 2 if tier == "quick" else 6
+    rounds = 3 if tier == "quick" else 12
     maxit = 5 if tier == "quick" else 8
     cases = []
     for n in _grids(tier):
@@ -173,7 +173,7 @@ def _fmt_ok(fmt, sep, kinds):
 def _plan_log(tier, seed):
     cases = []
     maxit = 5 if tier == "quick" else 12
-    rep_a, rep_b = (3, 10) if tier == "quick" else (12, 60)
+    rep_a, rep_b = (3, 10) if tier == "quick" else (30, 150)
     idx = 0
     for rep in range(rep_a):
         for ki, kind in enumerate(LOG_KINDS):                     # every value kind alone with every format
